@@ -314,6 +314,11 @@ def main(argv=None) -> int:
     one_claim = ('@claims:prop1', 'next phase', 'metavar 0', 'metavar 1', 'metavar 0', 'implies', 'implies', 'publish', 'next phase')
     run_bfs(chk, ['prop1', 'prop2', 'publish', 'save', 'load 0', 'load 1', 'pop'], 5 if thorough else 4, (5, 4, 14), agg,
             'one-provable-claim', seeds=(one_claim,))
+    # the same term in memory twice with different KINDS: saved as a pattern and published as an axiom (what a memoising front
+    # end does with an axiom that is also a frequent sub-pattern); both are loaded
+    both_kinds = ('pattern (phi0 -> phi0)', 'save', 'publish')
+    run_bfs(chk, ['load 0', 'load 1', 'pop', 'save', 'next phase'], 4 if thorough else 3, (5, 4, 14), agg,
+            'pattern-and-axiom-in-memory', seeds=(both_kinds,))
     # two saved terms that PRINT alike (constraints are not printed) and are loaded one after the other: labels passed to
     # save/load are built from the printed form, as the toolkit's own callers do
     twins = ('metavar 0', 'save', 'pop', 'metavar 0 e_fresh x0', 'save', 'pop')
